@@ -46,7 +46,7 @@ TRUSTED = [
 
 CLAIMED = True
 MANIFEST = {
- "level_text": "Theorems over the model of grouping, the two sweeps, group order, LIMIT and the per-type WHERE push-down (all event sets, link values, times, WHERE trees): every returned pair is linked, correctly ordered and both sides satisfy their WHERE; for FOLLOWED BY on the composed pipeline an a-event is matched iff a qualifying b-event exists whenever the WHERE is a conjunction of one-sided conditions and times are non-negative; the same holds for PRECEDED BY since fix 49473e7 (no class of its own left); the matcher alone and cross-type OR/NOT are refuted with witnesses and the exact failing classes; LIMIT bounds the result; no a-event is matched twice (the a-components of the returned pairs are pairwise different whenever the a-rows are, and within a link group they are a subsequence of the group's time-ordered a-rows), for both links, every WHERE, LIMIT and b-list. The model is run against the real ColumnarGrouper/SequenceMatcher on generated zones and against the real engine on generated histories, with a brute-force pair enumeration as oracle.",
+ "level_text": "Theorems over the model of grouping, the two sweeps, group order, LIMIT and the per-type WHERE push-down (all event sets, link values, times, WHERE trees): every returned pair is linked, correctly ordered and both sides satisfy their WHERE; for FOLLOWED BY on the composed pipeline an a-event is matched iff a qualifying b-event exists whenever the WHERE is a conjunction of one-sided conditions and times are non-negative; the same holds for PRECEDED BY since fix 49473e7 (no class of its own left); the matcher alone and cross-type OR/NOT are refuted with witnesses and the exact failing classes; LIMIT bounds the result; no a-event is matched twice (the a-components of the returned pairs are pairwise different whenever the a-rows are, and within a link group they are a subsequence of the group's time-ordered a-rows; hence never more sequences than a-rows), for both links, every WHERE, LIMIT and b-list. The model is run against the real ColumnarGrouper/SequenceMatcher on generated zones and against the real engine on generated histories, with a brute-force pair enumeration as oracle.",
  "design_ref": "DESIGN.md §6 C15",
  "level_note": "Trusted: Coq kernel; ExtrOcamlBasic extraction + OCaml driver; the Rust harness and the engine driver; the Python brute-force oracle. Only integer comparisons are modelled; the per-type sub-query is assumed to be an exact filter (C02)."
 }
